@@ -4,13 +4,20 @@
 //   G <N> <k> <N*k ints>                     is_connected(begin, end, neighbors) on an explicit graph
 //                                            (N lists of k entries each)
 //        -> "R G <0|1>"
+//   H <N> (<len> <len ints>)*               is_connected on an explicit graph whose lists have their own
+//                                            lengths (arbitrary Neighbors; empty lists allowed)
+//        -> "R G <0|1>"
+//   X <method> <k> <dim> <N> <N*dim ints>    find_neighbors(..., k, true) AND the lists find_neighbors(..., k_j,
+//                                            false) for every k_j = min(k*2^j, N-1) the recursion can ask for
+//        -> "R X <N> <lists> T <n> (<k_j> <N> <lists>)*"   (lists as in F)
 //   F <method> <cc> <k> <dim> <N> <N*dim ints>
 //                                            find_neighbors(method, ..., k, cc) on integer points under
 //                                            the L1 metric (dim 1 or 2); method 0 brute, 1 vptree, 2 covertree
 //        -> "R F <N> <len_0> <entries of list 0> <len_1> <entries of list 1> ..."
 //   D <method> <k> <dim> <N> <N*dim ints>    find_neighbors(..., check_connectivity = true), then
 //                                            compute_shortest_distances_matrix on the result
-//        -> "R D <len_0> <number of entries equal to DBL_MAX> <number of non-finite entries>"
+//        -> "R D <len_0> <number of entries equal to DBL_MAX> <number of non-finite entries> <number of
+//            DBL_MAX / non-finite entries of the landmark overload with landmarks 0,2,4,...>"
 //   I <method> <k> <dim> <N> <N*dim ints>    tapkee Isomap (target dimension 1, check_connectivity default)
 //        -> "R I ok <number of non-finite outputs>"  |  "R I exc <what>"
 //        (only when built with -DC03_WITH_EMBED: tapkee.hpp takes minutes to compile, the other
@@ -76,6 +83,16 @@ static bool read_points(std::istringstream& is, int dim, int N, Points& p)
     return true;
 }
 
+static void print_lists(const Neighbors& nb)
+{
+    printf(" %d", (int)nb.size());
+    for (size_t i = 0; i < nb.size(); i++)
+    {
+        printf(" %d", (int)nb[i].size());
+        for (size_t j = 0; j < nb[i].size(); j++) printf(" %d", (int)nb[i][j]);
+    }
+}
+
 int main()
 {
     Logging::instance().disable_info();
@@ -111,6 +128,58 @@ int main()
             for (int i = 0; i < N; i++) idx[i] = i;
             bool r = is_connected(idx.begin(), idx.end(), nb);
             printf("R G %d\n", r ? 1 : 0);
+        }
+        else if (cmd == "H")
+        {
+            int N;
+            is >> N;
+            bool ok = !is.fail() && N >= 0 && N < 100000;
+            Neighbors nb(ok ? N : 0);
+            for (int i = 0; i < N && ok; i++)
+            {
+                int len;
+                if (!(is >> len) || len < 0 || len > 1000000) { ok = false; break; }
+                for (int j = 0; j < len; j++)
+                {
+                    int v;
+                    if (!(is >> v)) { ok = false; break; }
+                    nb[i].push_back(v);
+                }
+            }
+            if (!ok) { printf("R G bad-input\n"); continue; }
+            Indices idx(N);
+            for (int i = 0; i < N; i++) idx[i] = i;
+            bool r = is_connected(idx.begin(), idx.end(), nb);
+            printf("R G %d\n", r ? 1 : 0);
+        }
+        else if (cmd == "X")
+        {
+            int m, k, dim, N;
+            is >> m >> k >> dim >> N;
+            Points pts;
+            if (is.fail() || !read_points(is, dim, N, pts)) { printf("R X bad-input\n"); continue; }
+            Indices idx(N);
+            for (int i = 0; i < N; i++) idx[i] = i;
+            l1_distance_callback dcb(&pts);
+            Neighbors nb = find_neighbors(method_of(m), idx.begin(), idx.end(), Plain(dcb), k, true);
+            printf("R X");
+            print_lists(nb);
+            std::vector<int> ks;
+            int kj = k > N - 1 ? N - 1 : k;
+            while (true)
+            {
+                ks.push_back(kj);
+                if (kj >= N - 1 || kj <= 0 || ks.size() > 40) break;
+                kj = 2 * kj > N - 1 ? N - 1 : 2 * kj;
+            }
+            printf(" T %d", (int)ks.size());
+            for (size_t t = 0; t < ks.size(); t++)
+            {
+                Neighbors nt = find_neighbors(method_of(m), idx.begin(), idx.end(), Plain(dcb), ks[t], false);
+                printf(" %d", ks[t]);
+                print_lists(nt);
+            }
+            printf("\n");
         }
         else if (cmd == "F" || cmd == "D" || cmd == "I")
         {
@@ -154,12 +223,8 @@ int main()
             Neighbors nb = find_neighbors(method_of(m), idx.begin(), idx.end(), Plain(dcb), k, cc != 0);
             if (cmd == "F")
             {
-                printf("R F %d", (int)nb.size());
-                for (size_t i = 0; i < nb.size(); i++)
-                {
-                    printf(" %d", (int)nb[i].size());
-                    for (size_t j = 0; j < nb[i].size(); j++) printf(" %d", (int)nb[i][j]);
-                }
+                printf("R F");
+                print_lists(nb);
                 printf("\n");
             }
             else
@@ -172,7 +237,15 @@ int main()
                         if (sd(i, j) == std::numeric_limits<DenseMatrix::Scalar>::max()) inf++;
                         if (!std::isfinite(sd(i, j))) nonfinite++;
                     }
-                printf("R D %d %ld %ld\n", nb.empty() ? -1 : (int)nb[0].size(), inf, nonfinite);
+                Landmarks lm;
+                for (int i = 0; i < N; i += 2) lm.push_back(i);
+                DenseMatrix ld = compute_shortest_distances_matrix(idx.begin(), idx.end(), lm, nb, dcb);
+                long linf = 0;
+                for (int i = 0; i < ld.rows(); i++)
+                    for (int j = 0; j < ld.cols(); j++)
+                        if (ld(i, j) == std::numeric_limits<DenseMatrix::Scalar>::max() || !std::isfinite(ld(i, j)))
+                            linf++;
+                printf("R D %d %ld %ld %ld\n", nb.empty() ? -1 : (int)nb[0].size(), inf, nonfinite, linf);
             }
         }
         else
